@@ -391,7 +391,18 @@ impl Gen {
             3 => vo.q / *rng.pick(&[2u128, 3, 5]),
             _ => rng.log_range(vo.q / 100_000 + 1, vo.q / 8 + 2),
         };
+        if rng.chance(1, 14) && vo.b > 0 {
+            // dust: what one, two or three raw base units cost at the current price (and a little around it)
+            n = mul_div(vo.q, rng.range128(1, 3), vo.b).unwrap_or(1).saturating_add(rng.range128(0, 4)).saturating_sub(rng.range128(0, 2)).max(1);
+        }
         if let Some(p) = pos {
+            if p.size.unsigned_abs() <= 4 && rng.chance(1, 2) {
+                // a dust position reduced by a raw-unit order (the vAMM's rounding may charge more base than it holds)
+                let opp = if p.dir == Dir::Add { Side::Sell } else { Side::Buy };
+                let n = rng.range128(1, 400);
+                let margin = mul_div(n, d, lev.max(1)).unwrap_or(n).max(1);
+                return Op::Open { vamm: v, side: opp, margin, leverage: lev, limit: 0 };
+            }
             // act on the existing position: increase, reduce, exact reverse, dust reverse, big reverse
             let cur = curve_output(p.dir, p.size.unsigned_abs(), vo.q, vo.b, vo.decimals.max(1)).unwrap_or(p.notional);
             let opp = if p.dir == Dir::Add { Side::Sell } else { Side::Buy };
